@@ -6,6 +6,7 @@ import multiprocessing as mp
 
 import common
 import dynpipe
+from common import prune_cache as common_prune
 from common import CACHE, MachineryError, NCPU, WORK, printed, run_tlc, spec_hash, tlc_error_excerpt
 
 CFG = """CONSTANTS MaxDepth = {depth}
@@ -27,6 +28,7 @@ def transitions(profile, depth):
     key = spec_hash("Lifecycle.tla", "MC_Life.tla") + f"-{profile}-{depth}"
     CACHE.mkdir(exist_ok=True)
     p, meta = CACHE / f"life-{key}.ndjson", CACHE / f"life-{key}.meta.json"
+    common_prune("life", key)
     if p.exists() and meta.exists():
         return [json.loads(l) for l in p.open()], json.loads(meta.read_text())
     d = WORK / "cfg"
